@@ -116,6 +116,9 @@ def body(ch, k0, k1, a, q, durable):
     except ValueError:
         return hx.rejected()
     p = commands.Basic.Properties(headers=hdrs, priority=a % 256)
+    tsobj = hx.dt(1700000000 + a, 5, None)          # naive timestamp assigned after construction
+    p.timestamp = tsobj
+    ts_before = hx.dt_parts(p.timestamp)
     h = header.ContentHeader(0, 10, p)
     so = commands.Connection.StartOk(args, "PLAIN", "r", "en_US")
     ok = True
@@ -123,16 +126,17 @@ def body(ch, k0, k1, a, q, durable):
         if isinstance(f, base.Frame):
             before = [(k, snap(v)) for k, v in f]
         else:
-            before = [(k, snap(v)) for k, v in f.properties] + [("body_size", f.body_size)]
+            before = [(k, snap(v)) for k, v in f.properties if k != "timestamp"] + [("body_size", f.body_size)]
         o1 = frame.marshal(f, ch)
         o2 = frame.marshal(f, ch)
         if isinstance(f, base.Frame):
             after = [(k, snap(v)) for k, v in f]
         else:
-            after = [(k, snap(v)) for k, v in f.properties] + [("body_size", f.body_size)]
+            after = [(k, snap(v)) for k, v in f.properties if k != "timestamp"] + [("body_size", f.body_size)]
         ok = ok and list(o1) == list(o2) and before == after
     ok = ok and m.arguments is args and so.client_properties is args and p.headers is hdrs
     ok = ok and list(ba) == [1, 2, 3] and lst == [3, 1, 2] and h.properties is p
+    ok = ok and p.timestamp is tsobj and hx.dt_parts(p.timestamp) == ts_before and ts_before[0] is False
     return ok
 '''
 
